@@ -375,10 +375,16 @@ func sampleOf(r runOut) map[string]interface{} {
 			for _, p := range t.Pipelines {
 				var ops []string
 				for _, o := range p.Ops {
+					kind := o.Kind
+					if o.Sub > 0 {
+						kind += fmt.Sprintf("(statement %d)", o.Sub-1)
+					} else if o.Sub < 0 {
+						kind += fmt.Sprintf("(vertex %d)", -o.Sub-1)
+					}
 					if o.Fault != nil {
-						ops = append(ops, fmt.Sprintf("%s[%s @%d]", o.Kind, o.Fault.Kind, o.Fault.At))
+						ops = append(ops, fmt.Sprintf("%s[%s @%d]", kind, o.Fault.Kind, o.Fault.At))
 					} else {
-						ops = append(ops, o.Kind)
+						ops = append(ops, kind)
 					}
 				}
 				ts = append(ts, fmt.Sprintf("task %d: parse(input %d, shared-version %v) -> %s", ti, p.Input, p.ShareVersion, strings.Join(ops, ",")))
@@ -411,6 +417,8 @@ func sampleOf(r runOut) map[string]interface{} {
 			k := o.Kind
 			if o.Sub > 0 {
 				k += fmt.Sprintf("(statement %d)", o.Sub-1)
+			} else if o.Sub < 0 {
+				k += fmt.Sprintf("(vertex %d in pre-order)", -o.Sub-1)
 			}
 			if o.Fault != nil {
 				h = append(h, fmt.Sprintf("%s[writer %s @%d]", k, o.Fault.Kind, o.Fault.At))
